@@ -50,7 +50,8 @@ def run(ctx) -> None:
         roots = prim(p, lambda c: call_name(c) == "_viz_node")
         ok = ok and len(roots) == 1 and len(roots[0].value.args) == 3 and u(roots[0].value.args[0]) == f"{hp_}.root" and u(roots[0].value.args[1]) == hp_
     ctx.check(ok, "C20.R1", "render: starts at the root", m.path, render.lineno, "rendering must draw the hierarchy from hugr.root", render)
-    vps = [p for p in ctx.paths(f"{DQ}._viz_node", bound=4096) if p.kind != "raise"]
+    # (the port-row helper is seen through: which of the two builds the list of port names and tests it for emptiness is free)
+    vps = [p for p in ctx.paths(f"{DQ}._viz_node", bound=4096, inline=("_html_ports",)) if p.kind != "raise"]
     op_txt = f"{nh_}[{np_}].op"
     ok_one = ok_name = ok_label = ok_disp = ok_cluster = ok_meta = bool(vps)
     f_meta = ""
@@ -101,21 +102,49 @@ def run(ctx) -> None:
         short = bool(ext) and ext[0] and bool(qual) and not qual[0]
         want_nl = f"{op_txt}.op_def().name" if short else f"{op_txt}.name()"
         ok_disp = ok_disp and nl is not None and unold(nl) == want_nl and bool(ext) and (not ext[0] or bool(qual))
-        # ---- R2: one cell per port
+        # ---- R2: one cell per port: the row is empty exactly when the node has no port of that side, else the row template over
+        #      the cells of ports "0", "1", .., n-1 in order, each with id prefix + port
+        from ..tmpl import T, tmatch
         for var, arg, cnt, prefix in (("inputs_row", ir, "num_in_ports", "self._INPUT_PREFIX"), ("outputs_row", orow, "num_out_ports", "self._OUTPUT_PREFIX")):
-            ports = f"[str(c0) for c0 in range({nh_}.{cnt}({np_}))]"
-            some = [k for t, k in p.tests if unold(t) in (f"len({ports}) <= 0", f"len({ports}) == 0")]
-            some = [not k for k in some] + [k for t, k in p.tests if unold(t) in (f"len({ports}) > 0", ports)]
-            if arg is not None and not some:
-                # the choice written as a conditional expression instead of a statement
-                row = f"self._html_ports({ports}, {prefix})"
-                rows_ok[var] = rows_ok[var] and unold(arg) in (f"{row} if {ports} else ''", f"{row} if len({ports}) > 0 else ''", f"'' if len({ports}) == 0 else {row}")
-                continue
-            if arg is None or not some:
+            n_txt = f"{nh_}.{cnt}({np_})"
+            names = (f"[str(c0) for c0 in range({n_txt})]", f"(str(c0) for c0 in range({n_txt}))")
+            def says_empty(tt, k):
+                if tt in [f"len({x}) <= 0" for x in names] + [f"len({x}) == 0" for x in names] + [f"{n_txt} <= 0", f"{n_txt} == 0", f"{n_txt} < 1"]:
+                    return k
+                if tt in [f"len({x}) > 0" for x in names] + list(names) + [f"{n_txt} > 0", f"{n_txt} >= 1", n_txt, f"{n_txt} != 0"]:
+                    return not k
+                return None
+            empty = None            # what the path has established: True = no ports, False = some
+            for t, k in p.tests:
+                e_ = says_empty(unold(t), k)
+                empty = e_ if e_ is not None else empty
+            try:
+                row = ast.parse(unold(arg), mode="eval").body if arg is not None else None
+            except SyntaxError:
+                row = None
+            if row is not None and empty is None and isinstance(row, ast.IfExp):
+                # the choice written as a conditional expression in the argument: both alternatives are judged
+                e_ = says_empty(u(row.test), True)
+                if e_ is not None:
+                    some_row, none_row = (row.orelse, row.body) if e_ else (row.body, row.orelse)
+                    rows_ok[var] = rows_ok[var] and u(none_row) == "''"
+                    row, empty = some_row, False
+            if row is None or empty is None:
                 rows_ok[var] = False
                 continue
-            want_row = f"self._html_ports({ports}, {prefix})" if some[0] else "''"
-            rows_ok[var] = rows_ok[var] and unold(arg) == want_row
+            if empty:
+                rows_ok[var] = rows_ok[var] and u(row) == "''"
+                continue
+            e = tmatch(row, T("self._HTML_PORTS_ROW_TEMPLATE.format(port_cells=''.join((self._HTML_PORT_TEMPLATE.format(port=E_p, port_id=E_id, back_colour=ANY_, "
+                              "font_colour=ANY_, border_width=ANY_, border_colour=ANY_, fontface=ANY_) for L_v in E_src)))"))
+            good = e is not None
+            if good:
+                v = e["L_v"]
+                # the cell's port is str(i) for i in range(n): either the names were listed first, or the offsets are formatted in the cell
+                listed = e["E_p"] == v and e["E_src"] in [x.replace("c0", v) if False else x for x in names] + [f"[str({w}) for {w} in range({n_txt})]" for w in ("c0", "c1")]
+                direct = e["E_p"] == f"str({v})" and e["E_src"] == f"range({n_txt})"
+                good = (listed or direct) and e["E_id"] == f"{prefix} + {e['E_p']}"
+            rows_ok[var] = rows_ok[var] and good
     ctx.check(ok_one and seen_branch == {True, False}, "C20.R1", "_viz_node: exactly one node statement per path", m.path, vn.lineno,
               "a node with children is drawn once inside its cluster, a leaf once in the enclosing graph: never zero or two statements", vn)
     ctx.check(ok_name, "C20.R1", "_viz_node: node statement named by index", m.path, vn.lineno,
@@ -131,10 +160,11 @@ def run(ctx) -> None:
     ctx.check(rows_ok["inputs_row"], "C20.R2", "_viz_node: in_ports", m.path, vn.lineno, "one cell per input port, rendered with the input prefix", vn)
     ctx.check(rows_ok["outputs_row"], "C20.R2", "_viz_node: out_ports", m.path, vn.lineno, "one cell per output port, rendered with the output prefix", vn)
     hp = dr.methods.get("_html_ports")
-    ok = False
+    # (the helper is seen through by the two rules above, cell template and prefix included; what remains to say about it on its own is
+    #  that every cell goes through the port template)
+    ok = rows_ok["inputs_row"] and rows_ok["outputs_row"]
     if hp is not None:
-        pr, pf = hp.args.args[1].arg, hp.args.args[2].arg
-        ok = thas(ctx.cfn(f"{DQ}._html_ports"), f"''.join((self._HTML_PORT_TEMPLATE.format(port=c0, port_id={pf} + c0, back_colour=ANY_, font_colour=ANY_, border_width=ANY_, border_colour=ANY_, fontface=ANY_) for c0 in {pr}))")
+        ok = ok and thas(ctx.cfn(f"{DQ}._html_ports"), "self._HTML_PORT_TEMPLATE.format(port=ANY_, port_id=ANY_, back_colour=ANY_, font_colour=ANY_, border_width=ANY_, border_colour=ANY_, fontface=ANY_)")
     ctx.check(ok, "C20.R2", "_html_ports: one cell per port with id prefix+port", m.path, hp.lineno if hp else 1, "", hp)
     pre = {k: v.value for k, v in dr.class_assigns.items() if k in ("_INPUT_PREFIX", "_OUTPUT_PREFIX") and isinstance(v, ast.Constant)}
     ok = pre.get("_INPUT_PREFIX") == "in." and pre.get("_OUTPUT_PREFIX") == "out." and pre["_INPUT_PREFIX"] != pre["_OUTPUT_PREFIX"]
